@@ -46,6 +46,7 @@ package jsonclient
 
 //@ func (*JSONClient).waitForBackoff
 //@ props C13
+//@ modifies nothing
 //@ site until#1 as u
 //@ site rand.Intn#1 as ri
 //@ site Add#1 as ad
@@ -60,6 +61,7 @@ package jsonclient
 
 //@ func (*JSONClient).PostAndParse
 //@ props C13 C12
+//@ modifies pointee(rsp)
 //@ site ctxhttp.Do#1 as do
 //@ site json.Unmarshal#1 as ju
 //@ requires c != nil && c.httpClient != nil
@@ -69,7 +71,8 @@ package jsonclient
 //@ ensures [error-results-are-nil] result2 != nil ==> result0 == nil && result1 == nil
 
 //@ func (*JSONClient).PostAndParseWithRetry
-//@ props C13
+//@ props C13 C12
+//@ modifies pointee(rsp)
 //@ arith int
 //@ stable c
 //@ site PostAndParse#1 as pp
@@ -97,6 +100,7 @@ package jsonclient
 
 //@ func (*JSONClient).GetAndParse
 //@ props C12
+//@ modifies pointee(rsp)
 //@ site ctxhttp.Do#1 as do
 //@ site Decode#1 as dc
 //@ site io.ReadAll#1 as rd
@@ -121,7 +125,7 @@ package jsonclient
 //@ ensures [unsuitable-key-refused] nv.called && nv.res1 != nil ==> result1 != nil
 //@ ensures [a-configured-key-always-yields-its-verifier] result1 == nil && pk.res0 != nil ==> nv.called && nv.res1 == nil && result0.Verifier == nv.res0
 //@ ensures [no-key-no-verifier] result1 == nil && pk.res0 == nil ==> result0.Verifier == nil
-//@ ensures [usable-client] result1 == nil ==> result0.httpClient != nil && result0.logger != nil && result0.backoff != nil
+//@ ensures [usable-client] result1 == nil ==> result0.httpClient != nil && result0.logger != nil && result0.backoff != nil && verifierOK(result0.Verifier)
 //@ at nv assert [verifier-for-the-parsed-key] nv.pk == pk.res0
 
 //@ func (*Options).ParsePublicKey
